@@ -730,13 +730,13 @@ sz_metadata* SZ_getMetadata(unsigned char* bytes)
 	if(confparams_dec!=NULL)
 		free(confparams_dec);
 	confparams_dec = params;*/
-	if(confparams_dec->dataType==SZ_FLOAT)
-		index += MetaDataByteLength;
-	else if(confparams_dec->dataType==SZ_DOUBLE)
+	if(confparams_dec->dataType==SZ_DOUBLE)
 		index += MetaDataByteLength_double;
+	else //float and all integer types
+		index += MetaDataByteLength;
 
-	if(confparams_dec->dataType!=SZ_FLOAT && confparams_dec->dataType!= SZ_DOUBLE) //if this type is an Int type
-		index++; //jump to the dataLength info byte address
+	if(confparams_dec->dataType!=SZ_FLOAT && confparams_dec->dataType!= SZ_DOUBLE && isConstant==0 && isLossless==0) //if this type is an Int type
+		index++; //jump over the exactByteSize byte (absent from constant and lossless streams) to the dataLength info
 	dataSeriesLength = bytesToSize(&(bytes[index]));// 4 or 8
 	index += exe_params->SZ_SIZE_TYPE;
 	//index += 4; //max_quant_intervals
